@@ -10,7 +10,7 @@
 (*            queries the driver keeps disjoint; the key is the query's place in name order)      *)
 (*   groups   f, overlap, groups = [[key, [docnum..]]..]   Results.groups()  (key 0 = None)      *)
 (*            f = "_range" with buckets / "_query" with qs: keys are bucket / query numbers       *)
-(*   collapse f, n, k, sort, docs                     search(collapse=f, collapse_limit=n, limit=k[, sortedby]) *)
+(*   collapse f, n, k, sort, order, docs, collapsed   search(collapse=f, collapse_limit=n, limit=k[, sortedby][, collapse_order]) *)
 (*   filtered filt, mask (queries or null), k, hits   search(filter=, mask=, limit=k)            *)
 (*   filteredlen  ..., n                              len() of those results                     *)
 (*   page     pagenum, pagelen, total, pagecount, offset, plen, docs   search_page              *)
@@ -111,10 +111,25 @@ CollapseSeq(idx, rank, f, n, i, shared) ==
        IN IF (shared \/ HasVal(idx, d, f)) /\ same >= n THEN prev ELSE Append(prev, d)
 \* the ranking that is collapsed: by score, or by the requested field (driver: every document has it)
 CollapseRank(idx, m, o) == IF o.sort = <<>> THEN Rank(m) ELSE SortSpec(idx, m, DOMAIN m, o.sort)
-CollapseOK(idx, m, o) ==
+\* with a collapse order (driver: every document has the order key) the n best of a key are the first n of
+\* its documents in that order (document order on ties); the ranking itself is not reordered
+CollapseKept(idx, m, o) ==
   LET rank == CollapseRank(idx, m, o)
-      kept == CollapseSeq(idx, rank, o.f, o.n, Len(rank), FALSE)
-  IN o.docs = Prefix(kept, o.k)
+  IN IF o.order = <<>> THEN CollapseSeq(idx, rank, o.f, o.n, Len(rank), FALSE)
+     ELSE LET S == DOMAIN m
+              ord == SortSpec(idx, m, S, o.order)
+              pos(d) == CHOOSE i \in DOMAIN ord : ord[i] = d
+              keep(d) == \/ ~HasVal(idx, d, o.f)
+                         \/ Cardinality({e \in S : /\ HasVal(idx, e, o.f) /\ Key1(idx, e, o.f) = Key1(idx, d, o.f)
+                                                   /\ pos(e) < pos(d)}) < o.n
+          IN SelectSeq(rank, keep)
+CollapseOK(idx, m, o) ==
+  LET kept == CollapseKept(idx, m, o)
+  IN /\ o.docs = Prefix(kept, o.k)
+     \* Results.collapsed_counts (recorded for unlimited searches): how many documents were left out
+     /\ o.collapsed >= 0 => o.collapsed = Cardinality(DOMAIN m) - Len(kept)
+     \* len() of collapsed results: the documents that remain, whatever the limit
+     /\ o.len = Len(kept)
 
 FilteredOK(idx, m, o) ==
   LET allow == IF o.hasfilt THEN DOMAIN Denote(idx, o.filt) ELSE DOMAIN m
@@ -156,7 +171,9 @@ Expected(idx, m, q, o) ==
                             THEN [allowed_keys |-> [d \in DOMAIN m |-> AllowedKeys(idx, d, o)]]
                             ELSE [groups |-> GroupsSpec(idx, DOMAIN m, o.f, o.overlap)]
     [] o.kind = "collapse" -> LET rk == CollapseRank(idx, m, o) IN
-                              [docs |-> Prefix(CollapseSeq(idx, rk, o.f, o.n, Len(rk), FALSE), o.k),
+                              [docs |-> Prefix(CollapseKept(idx, m, o), o.k),
+                               collapsed |-> Cardinality(DOMAIN m) - Len(CollapseKept(idx, m, o)),
+                               len |-> Len(CollapseKept(idx, m, o)),
                                docs_if_valueless_documents_share_a_key |->
                                   Prefix(CollapseSeq(idx, rk, o.f, o.n, Len(rk), TRUE), o.k)]
     [] o.kind = "page" -> PageFacts(m, o)
